@@ -238,12 +238,17 @@ def run(chk: Check):
         tot_w += np.asarray(ws)
         tot_we += np.asarray(ws) * np.asarray(es)
         first.append((complex(ws[0]), complex(es[0])))
-    last = [l for l in buf.getvalue().splitlines() if l.strip().startswith(f"{ntraj - 1}:")]
+    # the last running-mean line "<n>: [c1 c2 ...]" (numpy may print 0.j, 1.e-05 or wrap the array over several lines)
+    import re
+    txt = buf.getvalue()
+    m_ = list(re.finditer(rf"^\s*{ntraj - 1}:", txt, flags=re.M))
     printed = None
-    if last:
-        import re
-        nums = re.findall(r"[-+]?\d*\.\d+(?:[eE][-+]?\d+)?[-+]\d*\.\d+(?:[eE][-+]?\d+)?j", last[-1])
-        printed = np.array([complex(x) for x in nums]) if len(nums) == nblk else None
+    if m_:
+        tail = txt[m_[-1].end():]
+        tail = tail[: tail.index("]") + 1] if "]" in tail else tail
+        fl = r"(?:\d+\.?\d*|\.\d+)(?:[eE][-+]?\d+)?"
+        nums = re.findall(rf"[-+]?{fl}\s*[-+]\s*{fl}j", tail)
+        printed = np.array([complex(x.replace(" ", "")) for x in nums]) if len(nums) == nblk else None
     chk.case(("fpdriver", 0))
     chk.traces += 1
     want = tot_we / tot_w
